@@ -49,13 +49,17 @@ def float_xor(case, fail):
 @cls("near_vertex_float")
 def near_vertex_float(case, fail):
     """F24: float coordinates and a crossing of the operands' boundaries that the library takes for a contact at a
-    vertex (crossing parameter within 1e-6 of an end of either edge -- computed exactly on the values of the floats),
-    and the operator raises AssertionError (the class of F16 at the library's tolerance).  Any other outcome on such
-    an input (a malformed or wrong result, another exception) is NOT excused."""
+    vertex (crossing parameter within 1e-6 of an end of either edge -- computed exactly on the values of the floats):
+    the path following joins the wrong pieces; the operator raises AssertionError or returns a wrong / self-touching
+    region (the class of F16 at the library's tolerance).  A degenerate piece in the result (zero-length or shorter
+    than 1e-9), another exception or a hang on such an input is NOT excused."""
     from . import gen as G, impl as I, oracle as O
     if case.get("num") != "float" or "env" not in case:
         return False
-    if "Assertion" not in str(fail.get("impl")):
+    what = str(fail.get("what", ""))
+    excused = ("Assertion" in str(fail.get("impl")) or "not the set-theoretic combination" in what
+               or "crosses/touches itself" in what or "repeated vertex" in what)
+    if not excused or "zero-length" in what or "shorter than" in what:
         return False
     envd = [I.shape_data(I.mk_shape(s, "float")) for s in case["env"]]
     js = [O.shape_jordans(s) for s in envd]
